@@ -282,6 +282,32 @@ C17Directions(o) ==
           IN Cardinality(up) + Cardinality(down) >= 30 /\ (up = {} \/ down = {})
   THEN {BFail("C17", "one-direction-only", "")} ELSE {}
 
+(* ---------------- reference criterion of the importanceRatio strategy ---------------- *)
+(* the default strategy: criteria ranked weakest first by the method's importance; the first one whose cumulated *)
+(* importance reaches newCriterionImportance x total (default 0), else the last one                              *)
+RefStrategy(p) == IF Has(p, "referenceCriterionType") /\ p.referenceCriterionType # "" THEN p.referenceCriterionType ELSE "importanceRatio"
+(* cum >= rn/u x total without leaving TLC's 32-bit integers: total = q u + r, 0 <= r < u, 0 <= rn <= u *)
+ReachesShare(cum, rn, total, u) ==
+  LET q == total \div u
+      r == total % u
+      d == cum - rn * q
+  IN IF d >= u THEN TRUE ELSE IF d < 0 THEN FALSE ELSE d * u >= rn * r
+RECURSIVE CumRef(_, _, _, _, _, _, _)
+CumRef(seq, key, i, cum, rn, total, u) ==
+  IF i > Len(seq) THEN seq[Len(seq)]
+  ELSE LET c == cum + key[seq[i]] IN IF ReachesShare(c, rn, total, u) THEN seq[i] ELSE CumRef(seq, key, i + 1, c, rn, total, u)
+ImportanceRef(o, st, p) ==
+  LET u == o.case.unit
+      key == ImpMap(o, st)
+      seq == StableAsc(CritIdSeq(st), key)
+      total == SumOver(StCritIds(st), LAMBDA c : key[c])
+  IN CumRef(seq, key, 1, 0, PGet(p, "newCriterionImportance", 0), total, u)
+SmallImportances(o, st) == \A c \in StCritIds(st) : NAbs(Imp(Method(o), st, c)) < 100000000
+(* the strategy fixes the reference criterion: exact data, dyadic unit (sums and products are exact in floats too) *)
+RefKnown(o, k, p) ==
+  /\ RefStrategy(p) = "importanceRatio" /\ ExactBefore(o, k) /\ o.case.unit \in {256, 1024}
+  /\ PGet(p, "newCriterionImportance", 0) \in 0..o.case.unit /\ SmallImportances(o, BeforeOf(o, k))
+
 (* ---------------- C18: criteria concealment ---------------- *)
 (* weight the method's parameters hold for criterion c, for the weight-based methods; -1 if none *)
 WeightIn(method, st, c) ==
@@ -334,6 +360,8 @@ C18Conceal(o, k, b) ==
        IN (IF ac.type = "gain" THEN {} ELSE {BFail("C18", "not-gain", "")})
           \cup (IF shape THEN {} ELSE {BFail("C18", "shape", "")})
           \cup (IF refs # {} THEN {} ELSE {BFail("C18", "no-reference-criterion", "")})
+          \cup (IF refs # {} /\ RefKnown(o, k, p) /\ ImportanceRef(o, before, p) \notin refs
+                THEN {BFail("C18", "reference-not-chosen-by-configured-strategy", "")} ELSE {})
           \cup (IF ~shape THEN {}
                 ELSE (IF \A a \in AllIds(after) : inRange(a) THEN {} ELSE {BFail("C18", "value-out-of-range", "")})
                      \cup (IF \A a \in AllIds(after) : a \in DOMAIN ac.alternativesValues /\ ac.alternativesValues[a] = ValOfAlt(after, a, ac.id)
@@ -374,7 +402,8 @@ C18Mix(o, k, b) ==
                   IN IF diff = 0 THEN Near(comp.scaledValues[a], 0, Slack)
                      (* comp = num * T / diff, compared cross-multiplied; every operand carries a rounding error of one unit *)
                      ELSE Near(comp.scaledValues[a] * diff, num * T, 2 * (NAbs(diff) + NAbs(comp.scaledValues[a]) + T) + 4)
-           targets == {LET rg == RangeOf(before, c) IN NMax(NMax(NAbs(rg.min), NAbs(rg.max)), rg.max - rg.min) : c \in StCritIds(before)}
+           targetOf(c) == LET rg == RangeOf(before, c) IN NMax(NMax(NAbs(rg.min), NAbs(rg.max)), rg.max - rg.min)
+           targets == {targetOf(c) : c \in StCritIds(before)}
        IN (IF nc.type = "gain" THEN {} ELSE {BFail("C18", "not-gain", "")})
           \cup (IF shape THEN {} ELSE {BFail("C18", "shape", "")})
           \cup (IF comps THEN {} ELSE {BFail("C18", "components", "")})
@@ -386,6 +415,9 @@ C18Mix(o, k, b) ==
                      \cup (IF \A a \in AllIds(after) : a \in DOMAIN nc.scaledValues /\ nc.scaledValues[a] = ValOfAlt(after, a, nc.id)
                            THEN {} ELSE {BFail("C18", "report-differs", ""), BFail("C09", "report-differs", "")})
                      \cup (IF \E T \in targets : rescOK(c1, T) /\ rescOK(c2, T) THEN {} ELSE {BFail("C18", "rescaling", "")})
+                     \cup (IF RefKnown(o, k, p) /\ (\E T \in targets : rescOK(c1, T) /\ rescOK(c2, T))
+                              /\ ~(rescOK(c1, targetOf(ImportanceRef(o, before, p))) /\ rescOK(c2, targetOf(ImportanceRef(o, before, p))))
+                           THEN {BFail("C18", "reference-not-chosen-by-configured-strategy", "")} ELSE {})
                      \cup (IF \A c \in StCritIds(before) : WeightIn(m, after, c) = WeightIn(m, before, c)
                            THEN {} ELSE {BFail("C18", "old-parameters-changed", "")})
                      \cup (IF ~WeightBased(m) \/ (WeightIn(m, after, nc.id) >= 0 /\ \E c \in StCritIds(before) : WeightIn(m, after, nc.id) <= WeightIn(m, before, c) + Slack)
